@@ -98,7 +98,12 @@ def shrink_history(prog, hist, ref, key):
 
 
 def run(ck: core.Check):
-    from translator import renames_ir, writes
+    from translator import graph_setters, renames_ir, writes
+
+    try:
+        ck.cov["generated_graph_setters"] = graph_setters.generate()
+    except Exception as e:  # noqa: BLE001
+        ck.broken("translator", "translator/graph_setters.py could not read src/spox", f"{type(e).__name__}: {e}")
 
     try:
         ck.cov["generated_renames_ir"] = renames_ir.generate()["ir"]
@@ -189,7 +194,7 @@ def run(ck: core.Check):
     hcases = []
     stats = {"ops": {}, "violating_histories": 0, "refs": 0}
     for _ in range(n_hist):
-        prog = lf.gen_program(rng, size=rng.randrange(1, 6))
+        prog = lf.gen_program(rng, size=rng.randrange(1, 6), domains=(rng.random() < 0.5))
         ref = lh.gen_reference(rng, prog)
         hist = lh.gen_history(rng, prog, rng.randrange(2, 9))
         hcases.append({"prog": prog, "hist": hist, "ref": ref, "salt": rng.randrange(0, 200)})
@@ -211,6 +216,22 @@ def run(ck: core.Check):
         for key, what, step in r["violations"]:
             small = shrink_history(c["prog"], c["hist"][: step + 1] if 0 <= step < len(c["hist"]) else c["hist"], c["ref"], key)
             ck.failure(key, what, {"mode": "history", "prog": c["prog"], "hist": small, "ref": c["ref"]})
+
+    # ---- oracle: Graph setters applied to an already built Graph (memoised build result)
+    probes = 0
+    for c in hcases[: ck.pick(60, 400)]:
+        if c["ref"] is None:
+            continue
+        try:
+            bad_ = lh.graph_setter_probe(c["prog"], c["ref"])
+        except Exception as e:  # noqa: BLE001 - internal API moved
+            ck.broken("correspondence", "Graph setters not observable (spox._graph.results / Graph.with_* / get_arguments)", f"{type(e).__name__}: {e}")
+            break
+        probes += 1
+        ck.count(None)
+        for key, what in bad_:
+            ck.failure(key, what, {"mode": "graphcache", "prog": c["prog"], "ref": c["ref"]})
+    stats["graph_setter_probes"] = probes
 
     # ---- oracle: look-alike programs built, freed and built again (results keyed by object identity go stale)
     n_fam = ck.pick(40, 200)
@@ -299,6 +320,11 @@ def replay(ck: core.Check, doc) -> bool:
         for key, what in bad:
             print(f"{key}: {what}")
         return bool(bad)
+    if mode == "graphcache":
+        bad = lh.graph_setter_probe(case["prog"], case["ref"])
+        for key, what in bad:
+            print(f"{key}: {what}")
+        return bool(bad)
     if mode == "reuse":
         bad = lh.run_reuse_family(case["family"], rounds=12)
         for key, what in bad:
@@ -317,13 +343,17 @@ def replay(ck: core.Check, doc) -> bool:
     for pre in case.get("prelude", []):
         lh.run_case(pre["prog"], pre["hist"], pre["ref"])
     prog, hist, ref = case["prog"], case.get("hist", []), case.get("ref")
-    r = lh.run_case(prog, hist, ref)
+    # orders that come from object addresses differ from realisation to realisation: try a few
+    for _ in range(8):
+        r = lh.run_case(prog, hist, ref)
+        if r["violations"]:
+            break
     for key, what, _ in r["violations"]:
         print(f"{key}: {what}")
     if r["violations"]:
         return True
-    if mode in ("fresh", "fresh-vs-history") or case.get("hashseeds"):
-        seeds = case.get("hashseeds", [0, 1, 2, 3])
+    if True:
+        seeds = case.get("hashseeds", [0, 1, 2, 3])[:8]
         fresh = c03.run_fresh(ck, [{"prog": prog, "hist": hist if mode != "fresh-vs-history" else [], "ref": ref,
                                     "salt": case.get("salt", 0) + 17 * j} for j in range(3)], seeds, "replay")
         shas = set()
